@@ -1,15 +1,19 @@
-(* Tie of the C10 model (Model/SecondOrder.v) to the current source: regenerated hashes and subscript
-   strings (Extracted/Src.v) against the ones the model was written for (Model/Expected.v and the
-   literals below).  The exact-zero masks [np.not_equal(., 0)], the three case formulas and the
-   order of the buffer updates are inside the hashed body of _second_order_integral.            *)
+(* Tie of the C10 model (Model/SecondOrder.v) to the current source: regenerated hashes, subscript
+   strings and threshold literals (Extracted/Src.v) against the ones the model was written for
+   (Model/Expected.v and the literals below).  The two dimensionless case tests |EdE dt| > 1e-8,
+   |dEE dt| > 1e-8 are extracted literals; the exact-zero guards [np.not_equal(., 0)] of the divisions,
+   the -2 sin^2(x/2) form, the three case formulas and the order of the buffer updates are inside the
+   hashed body of _second_order_integral.                                                          *)
 From Coq Require Import ZArith String List.
 From FF Require Import Extracted.Src Model.Expected.
 Import ListNotations.
 Local Open Scope string_scope.
 
 Example tie_C10_second_order_integral :
-  Src.h_numeric__second_order_integral = Expected.h_numeric__second_order_integral.
-Proof. reflexivity. Qed.
+  thr_numeric__second_order_integral =
+    [("np.abs(EdE * dt) > 1e-08", (3022314549036573, -78)%Z); ("np.abs(dEE * dt) > 1e-08", (3022314549036573, -78)%Z)]
+  /\ Src.h_numeric__second_order_integral = Expected.h_numeric__second_order_integral.
+Proof. split; reflexivity. Qed.
 
 Example tie_C10_second_order_filter_function :
   einsum_numeric_calculate_second_order_filter_function =
